@@ -51,6 +51,13 @@ RespRoundTripViolations(r, obs) ==
          \cup (IF Len(p.parts) = Len(r.parts) /\ \E i \in 1..Len(r.parts) :
                     (p.parts[i].lo # r.parts[i].lo \/ p.parts[i].hi # r.parts[i].hi \/ p.parts[i].size # r.parts[i].size)
                THEN {"C15.range"} ELSE {})
+\* a status line with one field corrupted: rel relates the field to the registered <<code, phrase>> pair
+StatusLineViolations(rel, obs) ==
+    CASE rel = "exact" -> (IF obs.outcome = "ok" THEN {} ELSE {"C15.valid_status_line_rejected"})
+      [] rel \in {"other_phrase", "truncated_char", "truncated_word", "extended_char", "extended_word", "empty_phrase"} ->
+            (IF obs.outcome = "err" THEN {} ELSE {"C15.mismatched_reason_phrase_accepted"})
+      [] rel = "unregistered_code" -> (IF obs.outcome = "err" THEN {} ELSE {"C15.unknown_status_accepted"})
+      [] OTHER -> {}                                   \* letter case of the phrase: the statement is silent
 RespRejectViolations(cls, obs) ==
     IF cls \in {"unknown_status", "phrase_mismatch", "no_opening_boundary", "no_closing_boundary", "part_without_blank_line"}
     THEN (IF obs.outcome = "err" THEN {} ELSE {"C15." \o cls \o "_accepted"})
